@@ -4,7 +4,7 @@ import Sop.Lemmas.CommitWitness
 # C07 — a commit that fails on an I/O or lock error leaves no trace and no blockage
 
 Stated on Model P. The full statement is false for the code as it is; three independent witnesses are proved
-here and replayed on the implementation by the harness (findings C07-F1..F3). What holds in general is the
+here and replayed on the implementation by the harness (findings C07-F1..F3, F5). What holds in general is the
 per-handle algebra: an undone reservation is exactly the pre-reservation image with an empty inactive slot
 (`undo_restores_handle`), i.e. the undo routine is right whenever `rollback` decides to run it.
 -/
@@ -79,6 +79,16 @@ theorem C07_counterexample_item_locks :
 theorem C07_counterexample_count :
     (rFail Witness.wUpd ⟨.srUpdate, 1, .failAfter⟩ [(1, 9)]).1 = .err ∧
     (rFail Witness.wUpd ⟨.srUpdate, 1, .failAfter⟩ [(1, 9)]).2.s.cnt 0 ≠ Witness.s0.cnt 0 := by
+  refine ⟨?_, ?_⟩ <;> decide +kernel
+
+/-- **F5 (removal marks stay)**: the registry write of `commitRemovedNodes` takes effect and reports an error;
+`committedState` is `commitRemovedNodes`, so `rollback` (which runs `rollbackRemovedNodes` only when
+`committedState > commitRemovedNodes`) leaves the node marked deleted with a live timestamp: the next transaction
+that updates or removes that node is refused until the mark expires. -/
+theorem C07_counterexample_removed_marks :
+    (rFail Witness.wRem ⟨.regUpdateNoLocks, 1, .failAfter⟩ []).1 = .err ∧
+    ((rFail Witness.wRem ⟨.regUpdateNoLocks, 1, .failAfter⟩ []).2.s.reg 1).map
+        (fun h => (h.deleted, h.expiredInactive Witness.s0.now Witness.s0.hour)) = some (true, false) := by
   refine ⟨?_, ?_⟩ <;> decide +kernel
 
 theorem C07_counterexample : ¬ Statement_C07 := by
